@@ -597,3 +597,42 @@ def time_encode_spec(s):
 def time_decode_spec(h):
     """8 hex characters (LE32 epoch second) -> HH:MM of its local time"""
     return local_hhmm_of(le32v(unhex(h)))
+
+
+# ------------------------------------------------------------------------------------- C15 / C16 IR commands
+MODE_CODE = {"AUTO": "aa", "DRY": "ad", "FAN": "aw", "COOL": "ar", "HEAT": "ah"}
+FAN_CODE = {"AUTO": "f0", "LOW": "f1", "MEDIUM": "f2", "HIGH": "f3"}
+
+
+def ir_key_spec(W, toggle, min_temp, max_temp, state_on, mode_name, target, fan_name, swing_on, prev_known, prev_on):
+    """the most specific key available for the request, or None where the statement is silent (no candidate exists).
+    W: the IR code set (supports `in`); prev_known/prev_on: whether a previous power state was given and what it was"""
+    if target > max_temp:
+        t = max_temp
+    elif target < min_temp:
+        t = min_temp
+    else:
+        t = target
+    if not toggle and not state_on:
+        return "off"                                   # plain 'off' code for non-toggle remotes
+    prefix = "on_" if (toggle and prev_known and prev_on != state_on) else ""
+    base = prefix + MODE_CODE[mode_name]
+    if mode_name == "COOL" or mode_name == "HEAT":
+        base = base + str(t)
+    fan = "_" + FAN_CODE[fan_name]
+    if swing_on and (base + fan + "_d1") in W:
+        return base + fan + "_d1"
+    if (base + fan) in W:
+        return base + fan
+    if base in W:
+        return base
+    return None
+
+
+def command_payload(para, hexcode):
+    """four zero bytes plus the ASCII text 'Para|HexCode'"""
+    return b"\x00\x00\x00\x00" + utf8(para + "|" + hexcode)
+
+
+def swing_key_spec(swing_on):
+    return "FUN_d1" if swing_on else "FUN_d0"
